@@ -300,8 +300,9 @@ class FakeTransport:
         return True
 
 
-def worker_iteration(data):
-    """runs one iteration of DiameterAssociation.recv_message_from_queue on `data`; returns (alive, lock_held, enqueued canon)"""
+def worker_iteration(data, carry=b""):
+    """runs one iteration of DiameterAssociation.recv_message_from_queue on `data` with `carry` left over from the previous
+    iteration; returns (alive, lock_held, carried afterwards, enqueued canon)"""
     from bromelia.setup import DiameterAssociation, Diameter
     from bromelia.config import Config
     assoc = worker_iteration.assoc
@@ -316,6 +317,8 @@ def worker_iteration(data):
     assoc = DiameterAssociation(d._connection, d._base)
     assoc.transport = FakeTransport(assoc, data)
     assoc._stop_threads = False
+    if carry:
+        assoc._recv_partial_stream = carry
     alive = True
     signal.setitimer(signal.ITIMER_REAL, 2.0)
     try:
@@ -324,7 +327,7 @@ def worker_iteration(data):
         finally:
             signal.setitimer(signal.ITIMER_REAL, 0)
     except Hang:
-        return "hang", assoc.lock.locked(), "-"
+        return "hang", assoc.lock.locked(), b"", "-"
     except BaseException as e:
         if isinstance(e, (KeyboardInterrupt, SystemExit)):
             raise
@@ -332,7 +335,7 @@ def worker_iteration(data):
     msgs = []
     while not assoc._recv_messages.empty():
         msgs.append(assoc._recv_messages.get())
-    return alive, assoc.lock.locked(), c02.canon_msgs(msgs) if msgs else "none"
+    return alive, assoc.lock.locked(), getattr(assoc, "_recv_partial_stream", b""), c02.canon_msgs(msgs) if msgs else "none"
 
 
 worker_iteration.assoc = None
@@ -341,18 +344,39 @@ worker_iteration.assoc = None
 def explore_worker(chk, cases, tag):
     import logging
     logging.disable(logging.CRITICAL)
-    out = core.run_driver(["loadmsg %s" % (w.hex() or "-") for _, w in cases])
+    # every byte string is handed over whole, and again cut in two at a position derived from its content (the first
+    # part leaves a carry, the second iteration continues from it)
+    jobs = []
+    for kind, w in cases:
+        jobs.append((kind, b"", w))
+        if len(w) > 1:
+            cut = (sum(w[:8]) % (len(w) - 1)) + 1
+            jobs.append((kind + "+cut", None, (w[:cut], w[cut:])))
     old = signal.signal(signal.SIGALRM, _alarm)
     try:
-        for (kind, w), om in zip(cases, out):
-            alive, locked, enq = worker_iteration(w)
-            inp = {"op": "worker-iteration", "mutation": kind.split("=")[0], "hex": w.hex()}
+        lines, runs = [], []
+        for kind, carry, w in jobs:
+            if carry is None:
+                first, second = w
+                a1, l1, c1, e1 = worker_iteration(first)
+                lines.append("wstep - %s" % (first.hex() or "-"))
+                runs.append((kind, first, b"", (a1, l1, c1, e1)))
+                if a1 is True and not l1:
+                    a2, l2, c2, e2 = worker_iteration(second, c1)
+                    lines.append("wstep %s %s" % (c1.hex() or "-", second.hex() or "-"))
+                    runs.append((kind, second, c1, (a2, l2, c2, e2)))
+            else:
+                lines.append("wstep - %s" % (w.hex() or "-"))
+                runs.append((kind, w, b"", worker_iteration(w)))
+        out = core.run_driver(lines)
+        for (kind, w, carry, (alive, locked, carry2, enq)), om in zip(runs, out):
+            inp = {"op": "worker-iteration", "mutation": kind.split("=")[0], "carried": carry.hex(), "hex": w.hex()}
             chk.case(inp, kind="worker:%s:%s" % (kind.split("=")[0], tag))
-            model_enq = om.rstrip() if om.startswith("ok H") else "none"
-            if om.strip() == "ok":
-                model_enq = "none"
-            if (alive, locked, enq.rstrip()) != (True, False, model_enq):
-                chk.corr_break("worker-iteration", inp, [alive, locked, enq[:200]], [True, False, model_enq[:200]])
+            f = om.split(" ", 3)
+            model = (f[0] == "1", f[1] == "1", f[2], f[3].rstrip() if len(f) > 3 else "none")
+            impl = (alive is True, bool(locked), carry2.hex() or "-", enq.rstrip())
+            if impl != model:
+                chk.corr_break("worker-iteration", inp, [str(x)[:200] for x in (alive, locked, carry2.hex(), enq)], [str(x)[:200] for x in model])
             if alive is not True or locked:
                 chk.violation("receive worker does not survive malformed input / leaves the association lock held", inp,
                               "alive, lock released", "alive=%s lock_held=%s" % (alive, locked))
